@@ -1,6 +1,7 @@
 //! Router families: C13 (command language), C05 (roles), C06 (shards), C19 (plugins).
 
 use super::*;
+use crate::proto;
 
 fn respell(rng: &mut Rng, s: &str) -> String {
     // random letter case
@@ -197,5 +198,213 @@ pub fn c13(rng: &mut Rng, thorough: bool, idx: u64) -> Spec {
     spec.params.insert("offline".into(), serde_json::json!(offline));
     spec.family = format!("commands/shards{}{}", nshards, if offline { "/no_server_reachable" } else { "" });
     spec.oracles = vec!["c13_commands".into(), "liveness".into()];
+    spec
+}
+
+// ------------------------------------------------------------------------------------------
+// C06: shards
+// ------------------------------------------------------------------------------------------
+
+fn key(rng: &mut Rng) -> i64 {
+    match rng.below(12) {
+        0 => 0,
+        1 => 1,
+        2 => -1,
+        3 => i64::MAX,
+        4 => i64::MIN + 1,
+        5 => i32::MAX as i64,
+        6 => i32::MIN as i64,
+        7 => (i32::MAX as i64) + 1,
+        8 => (rng.next_u64() >> 1) as i64,
+        9 => -((rng.next_u64() >> 1) as i64),
+        10 => rng.range(0, 100) as i64,
+        _ => rng.next_u64() as i64 >> rng.below(48),
+    }
+}
+
+/// C06: every routing path of a sharding key (SET SHARDING KEY, SET SHARD, the two comment
+/// regexes, a literal equated with the automatic sharding key in SELECT/INSERT/UPDATE/DELETE/JOIN,
+/// bound text and binary parameters), stickiness between them, out-of-range SET SHARD; shard
+/// counts 1-6, both functions; in every fourth run a whole shard is unreachable.
+pub fn c06(rng: &mut Rng, thorough: bool, idx: u64) -> Spec {
+    let nshards = *rng.pick(&[1usize, 2, 2, 3, 3, 4, 5, 6]);
+    let replicas = rng.range(0, 1) as usize;
+    let mut cfg = sharded_pool("transaction", rng.range(1, 3) as u32, nshards, replicas);
+    cfg.set("connect_timeout", 1500);
+    cfg.set("ban_time", 1);
+    let function = rng.pick(&["pg_bigint_hash", "pg_bigint_hash", "sha1"]).to_string();
+    cfg.pools[0].sharding_function = function.clone();
+    cfg.pools[0].query_parser_enabled = true;
+    cfg.pools[0].rw_split = true;
+    // without replicas a read must be allowed on the primary, or nothing can serve it
+    cfg.pools[0].primary_reads_enabled = replicas == 0 || rng.chance(0.5);
+    cfg.pools[0].extra.push("automatic_sharding_key = \"data.id\"".into());
+    cfg.pools[0].extra.push("sharding_key_regex = '/\\* sharding_key: (\\d+) \\*/'".into());
+    cfg.pools[0].extra.push("shard_id_regex = '/\\* shard_id: (\\d+) \\*/'".into());
+    let default_shard = if rng.chance(0.7) { format!("shard_{}", rng.below(nshards as u64)) } else { "random".into() };
+    cfg.pools[0].extra.push(format!("default_shard = \"{}\"", default_shard));
+    let dead_shard: Option<usize> = if idx % 4 == 3 && nshards > 1 { Some(rng.below(nshards as u64) as usize) } else { None };
+    let nclients = rng.range(1, 3) as u32;
+    let mut plan = serde_json::Map::new();
+    let mut clients = Vec::new();
+    for id in 1..=nclients {
+        let mut p = Prog::new(id);
+        let n = rng.range(4, if thorough { 24 } else { 12 });
+        for _ in 0..n {
+            p.new_txn();
+            match rng.below(14) {
+                13 => {
+                    // a Bind that cannot be routed (the key parameter is not an integer, or two
+                    // keys of different partitions): the selection in force applies, and nothing
+                    // of this statement may linger into the next one
+                    let t = p.tag();
+                    plan.insert(t.clone(), serde_json::json!({"path": "bind_unroutable"}));
+                    let (sql, params): (String, Vec<Option<String>>) = if nshards > 1 && rng.chance(0.6) {
+                        let k1 = key(rng);
+                        let mut k2 = key(rng);
+                        let mut guard = 0;
+                        while crate::refmodel::partition(&function, k1, nshards) == crate::refmodel::partition(&function, k2, nshards) && guard < 200 {
+                            k2 = k2.wrapping_add(1);
+                            guard += 1;
+                        }
+                        (format!("SELECT '{}' FROM data WHERE id = $1 OR id = $2", t), vec![Some(proto::hex(k1.to_string().as_bytes())), Some(proto::hex(k2.to_string().as_bytes()))])
+                    } else {
+                        (format!("SELECT '{}' FROM data WHERE id = $1 AND v = $2", t), vec![Some(proto::hex(b"not-a-number")), Some(proto::hex(b"abc"))])
+                    };
+                    p.send(vec![
+                        FrontMsg::P { name: String::new(), sql, types: vec![] },
+                        FrontMsg::B { portal: String::new(), stmt: String::new(), fmt: vec![0, 0], params, rfmt: vec![], binary_hex: true },
+                        FrontMsg::E { portal: String::new(), max: 0 },
+                        FrontMsg::S,
+                    ]);
+                }
+                0 | 1 => {
+                    let k = key(rng).unsigned_abs() >> 1; // the command takes digits only
+                    let q = if rng.chance(0.5) { format!("SET SHARDING KEY TO '{}'", k) } else { format!("set sharding key to {};", k) };
+                    p.simple(q);
+                }
+                2 => {
+                    let n = if rng.chance(0.75) { rng.below(nshards as u64) } else { nshards as u64 + rng.below(3) };
+                    p.simple(format!("SET SHARD TO '{}'", n));
+                }
+                3 | 4 => {
+                    // no key in the statement: the current selection applies
+                    let t = p.tag();
+                    plan.insert(t.clone(), serde_json::json!({"path": "sticky"}));
+                    let q = match rng.below(3) {
+                        0 => format!("SELECT '{}'", t),
+                        1 => format!("SELECT '{}' FROM other WHERE x = {}", t, rng.range(0, 50)),
+                        _ => format!("UPDATE other SET v = '{}' WHERE x = {}", t, rng.range(0, 50)),
+                    };
+                    p.simple(q);
+                }
+                5 => {
+                    let k = key(rng).unsigned_abs() >> 1;
+                    let t = p.tag();
+                    plan.insert(t.clone(), serde_json::json!({"path": "comment_key", "key": k as i64}));
+                    p.simple(format!("/* sharding_key: {} */ SELECT '{}'", k, t));
+                }
+                6 => {
+                    let n = rng.below(nshards as u64);
+                    let t = p.tag();
+                    plan.insert(t.clone(), serde_json::json!({"path": "comment_shard", "shard": n}));
+                    p.simple(format!("/* shard_id: {} */ SELECT '{}'", n, t));
+                }
+                7 | 8 | 9 => {
+                    let k = if rng.chance(0.8) { key(rng).unsigned_abs() as i64 >> 1 } else { key(rng) };
+                    let t = p.tag();
+                    let lit = k.to_string();
+                    let shape = rng.below(8);
+                    let q = match shape {
+                        0 => format!("SELECT '{}' FROM data WHERE id = {}", t, lit),
+                        1 => format!("SELECT '{}' FROM data WHERE data.id = {}", t, lit),
+                        2 => format!("SELECT '{}' FROM public.data WHERE x = 3 AND id = {} AND y > 2", t, lit),
+                        3 => format!("SELECT '{}' FROM \"public\".\"data\" WHERE \"data\".\"id\" = {}", t, lit),
+                        4 => format!("INSERT INTO data (id, v) VALUES ({}, '{}')", lit, t),
+                        5 => format!("UPDATE data SET v = '{}' WHERE id = {}", t, lit),
+                        6 => format!("DELETE FROM data WHERE id = {} AND v <> '{}'", lit, t),
+                        _ => format!("SELECT '{}' FROM t2 INNER JOIN data ON data.id = {} AND data.id = t2.data_id", t, lit),
+                    };
+                    plan.insert(t.clone(), serde_json::json!({"path": if k < 0 { "auto_literal_negative" } else { "auto_literal" }, "key": k, "shape": shape}));
+                    p.simple(q);
+                }
+                _ => {
+                    // bound parameter
+                    let k = key(rng);
+                    let t = p.tag();
+                    let two = rng.chance(0.4);
+                    let key_first = rng.chance(0.5);
+                    let sql = if !two {
+                        format!("SELECT '{}' FROM data WHERE id = $1", t)
+                    } else if key_first {
+                        format!("SELECT '{}' FROM data WHERE id = $1 AND v = $2", t)
+                    } else {
+                        format!("SELECT '{}' FROM data WHERE v = $1 AND id = $2", t)
+                    };
+                    let binary = rng.chance(0.5);
+                    let (kbytes, width): (Vec<u8>, u32) = if !binary {
+                        (k.to_string().into_bytes(), 0)
+                    } else if k >= i16::MIN as i64 && k <= i16::MAX as i64 && rng.chance(0.5) {
+                        ((k as i16).to_be_bytes().to_vec(), 2)
+                    } else if k >= i32::MIN as i64 && k <= i32::MAX as i64 && rng.chance(0.6) {
+                        ((k as i32).to_be_bytes().to_vec(), 4)
+                    } else {
+                        (k.to_be_bytes().to_vec(), 8)
+                    };
+                    // the other parameter: a word, a number in text, or a binary integer
+                    let other_kind = rng.below(3);
+                    let (other, other_fmt): (Vec<u8>, i16) = match other_kind {
+                        0 => (b"abc".to_vec(), 0),
+                        1 => (rng.range(0, 99).to_string().into_bytes(), 0),
+                        _ => ((rng.range(0, 99) as i32).to_be_bytes().to_vec(), 1),
+                    };
+                    let (params, fmt): (Vec<Option<String>>, Vec<i16>) = if !two {
+                        (vec![Some(proto::hex(&kbytes))], vec![if binary { 1 } else { 0 }])
+                    } else if key_first {
+                        (vec![Some(proto::hex(&kbytes)), Some(proto::hex(&other))], vec![if binary { 1 } else { 0 }, other_fmt])
+                    } else {
+                        (vec![Some(proto::hex(&other)), Some(proto::hex(&kbytes))], vec![other_fmt, if binary { 1 } else { 0 }])
+                    };
+                    let path = format!("bind_{}{}{}{}", if binary { format!("binary{}", width) } else { "text".into() }, if two { if key_first { "_key_first_of_two" } else { "_key_second_of_two" } } else { "" }, if two { ["_other_word", "_other_number_text", "_other_number_binary"][other_kind as usize] } else { "" }, if k < 0 { "_negative" } else { "" });
+                    plan.insert(t.clone(), serde_json::json!({"path": path, "key": k}));
+                    p.send(vec![
+                        FrontMsg::P { name: String::new(), sql, types: vec![] },
+                        FrontMsg::B { portal: String::new(), stmt: String::new(), fmt, params, rfmt: vec![], binary_hex: true },
+                        FrontMsg::E { portal: String::new(), max: 0 },
+                        FrontMsg::S,
+                    ]);
+                }
+            }
+            if rng.chance(0.2) {
+                p.think(rng.range(0, 15));
+            }
+        }
+        p.steps.push(Step::Terminate);
+        let mut c = client(id, "app", "db", "apppw", rng.range(0, 30), p.steps);
+        c.patience_ms = 30_000;
+        if dead_shard.is_some() {
+            c.start = When::After { ev: "shard_down".into(), delay_ms: rng.range(1, 20) };
+        }
+        clients.push(c);
+    }
+    let hosts = cfg.hosts();
+    let mut actions = Vec::new();
+    if let Some(d) = dead_shard {
+        for h in hosts.iter().filter(|h| h.shard == d as i32) {
+            actions.push(ActionSpec { at: When::AtMs { ms: 40 }, act: Action::HostMode { host: h.addr.clone(), mode: "refuse".into() } });
+            actions.push(ActionSpec { at: When::AtMs { ms: 40 }, act: Action::KillConns { host: h.addr.clone(), how: "rst".into() } });
+        }
+        actions.push(ActionSpec { at: When::AtMs { ms: 41 }, act: Action::Emit { ev: "shard_down".into() } });
+    }
+    let net = if rng.chance(0.5) { net_calm() } else { net_swarm(rng) };
+    let mut spec = Spec { config_toml: cfg.render(), hosts, net, clients, actions, end: EndSpec { deadline_ms: 900_000, calm_ms: 20 }, ..Default::default() };
+    spec.params = params_from(&cfg);
+    spec.params.insert("nshards".into(), serde_json::json!(nshards));
+    spec.params.insert("sharding_function".into(), serde_json::json!(function));
+    spec.params.insert("default_shard".into(), serde_json::json!(default_shard));
+    spec.params.insert("dead_shard".into(), serde_json::json!(dead_shard.map(|d| d as i64).unwrap_or(-1)));
+    spec.params.insert("c06_plan".into(), serde_json::Value::Object(plan));
+    spec.family = format!("shards/n{}/{}{}", nshards, function, if dead_shard.is_some() { "/one_shard_down" } else { "" });
+    spec.oracles = vec!["c06_shards".into(), "liveness".into()];
     spec
 }
